@@ -76,6 +76,11 @@ CFG = {
         "Leptos.ServerFn.C13_ws_exchange",
         "Leptos.ServerFn.C13_ws_conversation",
         "Leptos.ServerFn.C13_ws_send_transmits",
+        # deeply nested values: the model's recursive codec is total on encoder output at every depth
+        "Leptos.ServerFn.C13_deep_values_roundtrip",
+        "Leptos.ServerFn.nestCodec_lawful",
+        "Leptos.ServerFn.C13_pipeline_deep_values",
+        "Leptos.ServerFn.chain_depth",
         # body placement (trivial in the model = the specification; exercised on the implementation side)
         "Leptos.ServerFn.C13_body_placement",
         "Leptos.ServerFn.C13_decode_placement_independent",
@@ -105,7 +110,8 @@ CFG = {
             "every offset 0..15 from a 16-byte boundary, for Rkyv, Cbor, MsgPack, Postcard (and mixed pairs) over a value type with "
             "out-of-line u64 / f64 / u128 / Box<i128> data under a 4-aligned root; the Websocket<JsonEncoding, JsonEncoding> protocol in "
             "interactive (wait for answer k before sending k+1) and batch conversations, Ok and Err items, observable = answers seen "
-            "(or `hang`), oracle = the direct conversation. (c) TESTING (not proof): truncated / bit-flipped / extended request and response bodies "
+            "(or `hang`), oracle = the direct conversation; DEEPLY NESTED values (a recursive comment thread at depths 0..300, widths 1..3) "
+            "through Json, SerdeLite, Cbor, MsgPack, Postcard up to the depth each third-party decoder accepts at this commit. (c) TESTING (not proof): truncated / bit-flipped / extended request and response bodies "
             "under catch_unwind for every codec, oracle = an Ok or an Err of the declared type, never a panic. "
             "distinct = distinct op line; every op carries at least one generated string or byte string (non-trivial)",
     "trusted": [
@@ -137,6 +143,9 @@ CFG = {
         "server_fn feature `multipart` (MultipartFormData) is excluded: its dependency `multer` is not in the offline registry",
         "browser / reqwest / axum / actix back ends are not exercised: the client half is the harness' LoopReq/LoopRes "
         "(same constructor semantics as request/reqwest.rs), the server half is the generic http::Request<Bytes> back end",
+        "deep nesting: serde_json (Json, SerdeLite) refuses more than 128 levels (thread depth > 62), ciborium more than 256 (depth > 126) "
+        "while their encoders have no limit (proposed known class deep-nesting, F-C13-6); generated depths stay within these limits; "
+        "Rkyv and the URL encodings (serde_qs depth 5) are not exercised with recursive values",
         "websocket protocol: exercised over an in-memory duplex (futures mpsc) on one LocalPool with a client write half that only "
         "transmits on flush / close / more than 8 queued frames; real sockets (tungstenite, gloo-net, axum/actix upgrades) are not",
         "a failed item of a streamed response travels as the Display text of the throw_error::Error the generic Body::Async carries "
